@@ -381,3 +381,29 @@ package runtime
 //@ method (*VM).GetModuleCodeFinder
 //@   pure
 //@   ensures result == vm.moduleCodeFinder
+
+// ---- libraries ----
+//@ fieldinv Library.exportValues nonnil
+//@ func NewLibrary
+//@   modifies nothing
+//@   ensures fresh(result) && result != nil
+//@ method (*Library).RegisterFunction
+//@   requires l != nil
+//@   modifies map(l.exportValues)
+//@   ensures result == l
+//@ method (*Library).RegisterClass
+//@   requires l != nil
+//@   modifies map(l.exportValues)
+//@   ensures result == l
+//@ method (*Library).addExportValue
+//@   requires l != nil
+//@   modifies map(l.exportValues)
+//@ method (*Library).GetAllExportValues
+//@   pure
+//@   ensures result == l.exportValues
+//@ method (*Library).GetName
+//@   pure
+//@   ensures result == l.name
+
+// ---- C11: determinism inventories ----
+//@ maprange (*ModuleGraph).checkCircularDepedencyDFS#1 assumed : the result is "the import graph has a cycle", which does not depend on the node the search starts from (graph theory; the DFS itself is not under contract)
